@@ -536,6 +536,26 @@ def rec_iform(vc, rid, name, base, tr, alpha, npoints, pf, seed):
     return r
 
 
+def rec_marginal_mc(vc, rid, name, base, tr, seedkind, seed, n):
+    """the Monte-Carlo marginal quantile (first coordinate of the transformed IFORM) on a fine probability grid:
+    sup |F_0(marginal_icdf(p)) - p| must be within the DKW radius of the documented sample size
+    n = 100 * precision_factor / p_small - whatever the TYPE of the seed (Python int, numpy integer, Generator, global RNG)."""
+    r = dict(id=rid, kind="margmc", exc="", name=f"{name} marginal_icdf seed={seedkind}", d0=[], n0=n)
+    try:
+        t = tmodel(vc, base, tr, pf=1.0)
+        ps = np.r_[100.0 / n, np.linspace(0.02, 0.98, 193)]
+        rs = {"int": seed, "npint": np.int64(seed), "npuint": np.uint32(seed), "generator": np.random.default_rng(seed), "global": None}[seedkind]
+        np.random.seed(seed % 2**32)
+        with warnings.catch_warnings():
+            warnings.simplefilter("ignore")
+            x = np.asarray(t.marginal_icdf(ps, 0, random_state=rs), dtype=float)
+        F0 = np.asarray(base.distributions[0].cdf(x), dtype=float)
+        r["d0"] = [clampq(abs(a - b), 1e4) for a, b in zip(F0, ps)]
+    except Exception as e:  # noqa
+        r["exc"] = f"{type(e).__name__}: {e}"[:200]
+    return r
+
+
 def key_of(r):
     k = r["kind"]
     if k == "cond":
@@ -654,6 +674,11 @@ def run(ctx):
         r = rec_iform(vc, nid(), name, base, tr, alpha, npoints, pf, 0 if ci == len(icases) else int(rng.integers(0, 2**31)))
         r.update(alpha=alpha, pf=pf)
         add(r)
+    # seed TYPES are an input class: a numpy integer is as good a seed as a Python int (several blocks of the
+    # minimum sample size are needed: n = 1e7 quick / thorough)
+    name, base, tr = models[0]
+    for sk in ctx.pick(["npint"], ["npint", "int", "npuint", "generator", "global"]):
+        add(rec_marginal_mc(vc, nid(), name, base, tr, sk, int(rng.integers(1, 2**31)), 10000000))
     failing = ctx.validate("Trace_C16", "Trace_C16.cfg", recs)
     for r in recs:
         ctx.case(key_of(r), nontrivial=r["exc"] == "")
@@ -667,7 +692,7 @@ def run(ctx):
         ctx.assumptions.append("no recorded support search was a behaviour of SupportSearch.tla (hook absent or search refactored): "
                                "only the law-level clauses were judged")
     ctx.notes.update(records_by_kind={k: sum(1 for r in recs if r["kind"] == k) for k in
-                                      ("roundtrip", "pushforward", "cdfemp", "samples", "cond", "iform")},
+                                      ("roundtrip", "pushforward", "cdfemp", "samples", "cond", "iform", "margmc")},
                      cond_records_with_hook=sum(1 for r in recs if r["kind"] == "cond" and r["hooked"]))
     # growth beyond the listed property: documented Monte-Carlo sizing rules and the axes table
     from . import ext_sizing
